@@ -275,6 +275,9 @@ pub(crate) fn as_varint(value: i32) -> Vec<u8> {
 
 pub(crate) fn get_string<B: ByteOrder>(buffer: &mut Buffer<B>) -> GDResult<String> {
     let length = get_varint(buffer)? as usize;
+    if length > buffer.remaining_length() {
+        return Err(PacketBad.context("String length is larger than the remaining data"));
+    }
     let mut text = Vec::with_capacity(length);
 
     for _ in 0 .. length {
